@@ -424,3 +424,40 @@ func otOpt(f *float64) string {
 	}
 	return fmt.Sprint(*f)
 }
+
+// CanonOTLP returns the Tags and Host that ParseOTLP reports for a series flushed with these tags and this source
+// when the backend is faithful: equal tags collapse into one, "k:" is the bare tag "k", the source is the host unless
+// the series has a tag with the key "host" (then no source is sent; a single host:<v> tag is reported as the host).
+func CanonOTLP(tags []string, source string) (ctags []string, host string) {
+	seen := map[string]bool{}
+	var hostVals []string
+	for _, t := range tags {
+		k, v, _ := strings.Cut(t, ":")
+		c := k
+		if v != "" {
+			c = k + ":" + v
+		}
+		if seen[c] {
+			continue
+		}
+		seen[c] = true
+		if k == "host" {
+			hostVals = append(hostVals, v)
+		}
+		ctags = append(ctags, c)
+	}
+	switch {
+	case len(hostVals) == 0:
+		host = source
+	case len(hostVals) == 1 && hostVals[0] != "":
+		host = hostVals[0]
+		var rest []string
+		for _, c := range ctags {
+			if c != "host:"+host {
+				rest = append(rest, c)
+			}
+		}
+		ctags = rest
+	}
+	return jsSorted(ctags), host
+}
